@@ -129,8 +129,9 @@ class Check:
         if len(self.violations) >= 12 and self.known.match(self.pid, key) is None:
             self.counters['violations_not_replayed_after_cap'] = self.counters.get('violations_not_replayed_after_cap', 0) + 1
             return
-        os.makedirs(os.path.join(ROOT, 'replays'), exist_ok=True)
-        fname = os.path.join(ROOT, 'replays', '%s_%s.py' % (self.pid, hashlib.sha1(key.encode()).hexdigest()[:10]))
+        rdir = os.environ.get('VERIF_REPLAY_DIR') or os.path.join(ROOT, 'replays')
+        os.makedirs(rdir, exist_ok=True)
+        fname = os.path.join(rdir, '%s_%s.py' % (self.pid, hashlib.sha1(key.encode()).hexdigest()[:10]))
         with open(fname, 'w') as f:
             f.write('# replay for %s key=%s\n# %s\n' % (self.pid, key, description.replace('\n', ' ')[:500]))
             f.write(replay_src)
@@ -196,8 +197,9 @@ class Check:
             'wall_s': round(wall, 2),
             'violations': len(self.violations),
         }
-        os.makedirs(os.path.join(ROOT, 'evidence'), exist_ok=True)
-        path = os.path.join(ROOT, 'evidence', self.pid + '.json')
+        evdir = os.environ.get('VERIF_EVIDENCE_DIR') or os.path.join(ROOT, 'evidence')
+        os.makedirs(evdir, exist_ok=True)
+        path = os.path.join(evdir, self.pid + '.json')
         with open(path, 'w') as f:
             json.dump(ev, f, indent=1, default=str)
         print('%s tier=%s obligations=%d discharged=%d inconclusive=%d violations=%d known=%d harness_errors=%d '
